@@ -192,6 +192,7 @@ type snapshot struct {
 	trailMark int
 	ps        pathSave
 	epoch     int
+	raceOn    bool
 }
 
 func copyFrames(top *Frame) *Frame {
@@ -218,7 +219,7 @@ func copyFrames(top *Frame) *Frame {
 }
 
 func (e *Engine) snapshot() *snapshot {
-	s := &snapshot{trailMark: len(e.trail), ps: e.savePS(), epoch: e.epoch}
+	s := &snapshot{trailMark: len(e.trail), ps: e.savePS(), epoch: e.epoch, raceOn: e.raceOn}
 	for i, th := range e.threads {
 		s.frames = append(s.frames, copyFrames(th.top))
 		s.thState = append(s.thState, *th)
@@ -241,6 +242,7 @@ func (e *Engine) restore(s *snapshot) {
 	e.th = e.threads[s.cur]
 	e.done = false
 	e.outcome = ""
+	e.raceOn = s.raceOn
 }
 
 // decide picks one of several alternatives; constant-false alternatives are
@@ -391,9 +393,12 @@ func (e *Engine) explore() {
 		// roll back partial effects of the interrupted step
 		e.undoTo(e.stepMark)
 		e.restorePS(e.stepPS)
+		e.th = e.stepThread
 		*e.stepTop = e.stepFr
 		*e.th = e.stepTh
 		e.th.top = e.stepTop
+		e.threads = e.threads[:e.stepNThreads]
+		e.raceOn = e.stepRaceOn
 		e.pre, e.preUsed, e.decSeq = nil, 0, 0
 		snap := e.snapshot()
 		e.res.Forks++
@@ -627,6 +632,11 @@ func (e *Engine) finishPath() {
 		out = "ok"
 	}
 	th := e.threads[0]
+	for _, t := range e.threads {
+		if t.panicking {
+			th = t
+		}
+	}
 	if th.panicking && e.outcome == "panic" {
 		site := th.panicSite
 		label := "panic:" + site
